@@ -187,6 +187,47 @@ def c05_table(ctx):
         isn = bool_edges(en, M.Terms(en), lambda c: c[0] == "call" and c[1] == "std::option::Option::<T>::is_none", True)
         ok = inner is not None and inner[0] == "call" and inner[1] == "popen::get_standard_stream" and inner[2] == (("param", 2, en.local_name(2)),) and dominated_by_edges(en, stores[0][2], isn)
     ctx.ob("R05.7", "ensure_child_stream=default-iff-None", ok, en.loc(0), "a None end becomes the standard stream with the given id; a present end is left alone")
+    # CreateProcess: handles are inherited, the three child ends are passed as stdin/stdout/stderr in that order, and STARTF_USESTDHANDLES is set
+    cp = os_start.calls_to(lambda f: M.callee_str(f) == "win32::CreateProcess")
+    okc = len(cp) == 1 and len(cp[0][1]["args"]) == 10
+    if okc:
+        a = [T.operand(x) for x in cp[0][1]["args"]]
+        def comp(t):
+            t = M.noref(t)
+            if t[0] == "call" and t[1].endswith("os_start::raw"):
+                t = M.noref(t[2][0])
+            return t[2] if t[0] == "field" and M.contains(t[1], lambda u: u[0] == "call" and u[1].endswith("Popen::setup_streams")) else None
+        ctx.ob("R05.7", "CreateProcess.inherit-handles", const_of(a[4]) == 1, os_start.loc(cp[0][0]), "bInheritHandles must be the constant true (got %s): otherwise the child receives none of its standard handles" % M.term_str(a[4]))
+        ctx.ob("R05.7", "CreateProcess.std-handles-in-order", [comp(a[6]), comp(a[7]), comp(a[8])] == ["0", "1", "2"], os_start.loc(cp[0][0]),
+               "hStdInput/hStdOutput/hStdError must be the (stdin, stdout, stderr) child ends returned by setup_streams, in that order (components %s)" % [comp(a[6]), comp(a[7]), comp(a[8])])
+        ctx.ob("R05.7", "CreateProcess.STARTF_USESTDHANDLES", const_of(a[9]) == 0x100, os_start.loc(cp[0][0]), "dwFlags = %s (must be STARTF_USESTDHANDLES = 0x100)" % M.term_str(a[9]))
+    else:
+        ctx.ob("R05.7", "CreateProcess.site", False, os_start.loc(0), "expected one win32::CreateProcess call with 10 arguments")
+    mp = prog.one("popen::os::make_pipe")
+    Tm = M.Terms(mp)
+    cpp = mp.calls_to(lambda f: M.callee_str(f) == "win32::CreatePipe")
+    ctx.ob("R05.7", "make_pipe=CreatePipe(inheritable)", len(cpp) == 1 and const_of(Tm.operand(cpp[0][1]["args"][0])) == 1, mp.loc(0),
+           "pipes are created inheritable (the parent's end is un-marked afterwards by prepare_pipe, R05.1h); a non-inheritable pipe never reaches the child")
+
+
+def c08_set_inheritable(ctx):
+    """R08.1w: set_inheritable(f, b) sets the HANDLE_FLAG_INHERIT bit to exactly b"""
+    prog = _win(ctx)
+    if prog is None:
+        return
+    si = prog.one("popen::os::set_inheritable")
+    for want in (0, 1):
+        ex = M.Explore(si, assume={("param", 2, si.local_name(2)): want}, tries="ok")
+        Tx = M.Terms(si, blocks=ex.blocks)
+        cs = [(bb, t) for bb, t in ex.calls(lambda f: M.callee_str(f) == "win32::SetHandleInformation")]
+        ok = len(cs) == 1
+        detail = "no single SetHandleInformation call"
+        if ok:
+            a = [Tx.operand(x) for x in cs[0][1]["args"]]
+            ok = M.noref(M.strip(a[0])) == ("param", 1, si.local_name(1)) and const_of(a[1]) == 1 and const_of(a[2]) == want
+            detail = "SetHandleInformation(%s, mask=%s, flags=%s)" % (M.term_str(a[0]), M.term_str(a[1]), M.term_str(a[2]))
+        ctx.ob("R08.1w", "set_inheritable(%s)=HANDLE_FLAG_INHERIT:=%d" % ("true" if want else "false", want), ok, si.loc(cs[0][0] if cs else 0),
+               "windows: set_inheritable(f, %s) must call SetHandleInformation(f, HANDLE_FLAG_INHERIT, %d): %s" % ("true" if want else "false", want, detail))
 
 
 def c09_state(ctx):
@@ -222,6 +263,26 @@ def c09_state(ctx):
             else:
                 ctx.ob("R09.1w", "store:%s@%s" % ("/".join(sorted(vs)), p), False, fn.loc(bb), "windows: unexpected store %s" % M.term_str(val)[:80])
     ctx.floor("R09.1w", "windows stores to child_state", n, 3)
+    # what the wait family hands out comes from the recorded state; a known status is returned as is; a blocking wait really waits
+    reported_status_is_recorded(ctx, prog, "R09.1w")
+    want = ("field", ("downcast", self_field("child_state"), "Finished"), "0")
+    for name, wrap in (("os_wait_timeout", True), ("os_wait", False)):
+        f = prog.one(name)
+        Tf = M.Terms(f)
+        ex = M.Explore(f, assume={self_field("child_state"): CHILD_STATE["Finished"]}, tries="ok")
+        res = []
+        for (bb, si, v, r) in result_variants(f, ex):
+            pay = Tf.operand(r["ops"][0]) if v == "Ok" else None
+            res.append((v, pay))
+        good = (("Ok", ("agg", ("adt", "std::option::Option", "Some"), (want,))) if wrap else ("Ok", want))
+        ctx.ob("R09.1w", "%s[Finished]=the-recorded-status" % name, bool(res) and all(x == good for x in res), f.loc(0),
+               "windows: with a recorded status %s must return exactly that status (found %s)" % (name, [(v, M.term_str(p)[:60] if p else None) for v, p in res]))
+    ow = prog.one("os_wait")
+    wh = [bb for bb, t in ow.calls() if M.callee_str(t["f"]).endswith("PopenOsImpl>::wait_handle")]
+    Tow = M.Terms(ow)
+    okw = len(wh) == 1 and all(dominated_by_blocks(ow, r, wh) for r in ow.return_blocks()) and \
+        Tow.operand(ow.blocks[wh[0]]["term"]["args"][1]) == ("agg", ("adt", "std::option::Option", "None"), ())
+    ctx.ob("R09.1w", "os_wait.waits-without-limit-first", okw, ow.loc(wh[0] if wh else 0), "windows: os_wait must call wait_handle(None) before it looks at the state on every path")
 
 
 def c11_wait_handle(ctx):
@@ -249,3 +310,70 @@ def c16_shell(ctx):
         return
     v = prog.consts.get("builder::os::SHELL")
     ctx.ob("R16.3", "windows:SHELL=[cmd.exe,/c]", v == ["cmd.exe", "/c"], "", "windows SHELL constant = %s" % (v,))
+
+
+def c06_env_block(ctx):
+    """R06.9: the Windows environment block — for every kept (name, value) pair, in order: name, '=', value, NUL; one more NUL at the
+    end; duplicates removed case-insensitively in favour of the later entry (same idiom contradiction rule as R06.6)"""
+    prog = _win(ctx)
+    if prog is None:
+        ctx.ob("R06.9", "windows-build", False, "", "windows configuration unavailable")
+        return
+    import c06
+    fb = prog.fn("popen::os::format_env_block")
+    if fb is None:
+        ctx.missing("R06.9", "popen::os::format_env_block")
+        return
+    ENC = "<std::ffi::OsStr as std::os::windows::ffi::OsStrExt>::encode_wide"
+    up = prog.fn("popen::os::format_env_block::to_uppercase")
+    key = c06.dedup_idiom(ctx, prog, fb, "R06.9", "format_env_block",
+                          key_pred=lambda k: k[0] == "call" and k[1] == "popen::os::format_env_block::to_uppercase" and "0" in M.term_str(k[2][0]))
+    T = M.Terms(fb)
+    loops = M.sccs(fb)
+    ctx.ob("R06.9", "one-loop", len(loops) == 1, fb.loc(0), "format_env_block has one loop over the kept pairs (found %d)" % len(loops))
+    if len(loops) != 1:
+        return
+    loop = loops[0]
+    blk = [i for i, l in enumerate(fb.locals) if l.get("name") == "block"]
+    if len(blk) != 1:
+        ctx.missing("R06.9", "local `block`")
+        return
+    is_blk = lambda op: T.addr(op) is not None and T.addr(op)[1][:2] == ("local", blk[0])
+    muts = []
+    for bb, t in fb.calls():
+        nm = M.callee_str(t["f"])
+        if t["args"] and is_blk(t["args"][0]) and not nm.endswith("::new"):
+            a1 = T.operand(t["args"][1]) if len(t["args"]) > 1 else None
+            if nm == "std::vec::Vec::<T, A>::push":
+                kind = ("push", const_of(a1))
+            elif nm.endswith("Extend<T>>::extend") and a1[0] == "call" and a1[1] == ENC:
+                src = M.noref(M.strip(a1[2][0], also=("<std::ffi::OsString as std::ops::Deref>::deref",)))
+                comp = src[2] if src[0] == "field" else None
+                kind = ("extend", comp)
+            else:
+                kind = ("other", nm)
+            muts.append((bb, kind, bb in loop))
+    inl = [m for m in muts if m[2]]
+    # order by dominance inside the loop body
+    inl.sort(key=lambda m: sum(1 for o in inl if o is not m and dominated_by_blocks(fb, m[0], [o[0]], start=min(loop))))
+    seq = [m[1] for m in inl]
+    chain = all(dominated_by_blocks(fb, inl[i + 1][0], [inl[i][0]], start=min(loop)) for i in range(len(inl) - 1))
+    ctx.ob("R06.9", "entry=name,'=',value,NUL", seq == [("extend", "0"), ("push", 0x3D), ("extend", "1"), ("push", 0)] and chain, fb.loc(inl[0][0] if inl else 0),
+           "each iteration appends, in this order and each exactly once: the name's UTF-16 units, '=', the value's units, one NUL (found %s)" % seq)
+    out = [m for m in muts if not m[2]]
+    okt = [m[1] for m in out] == [("push", 0)] and all(dominated_by_blocks(fb, r, [out[0][0]]) for r in fb.return_blocks()) and out[0][0] in fb.reachable(min(loop))
+    ctx.ob("R06.9", "block-terminator", okt, fb.loc(out[0][0] if out else 0), "after the last entry exactly one more NUL terminates the block on every path (operations on the block outside the loop: %s)" % [m[1] for m in out])
+    rets = [s_["r"] for bb_ in fb.live_blocks() for s_ in fb.blocks[bb_]["stmts"] if s_["k"] == "assign" and s_["p"]["l"] == 0 and not s_["p"]["proj"]]
+    okr = len(rets) == 1 and rets[0]["k"] == "use" and rets[0]["op"]["k"] in ("move", "copy") and rets[0]["op"]["p"]["l"] == blk[0] and not rets[0]["op"]["p"]["proj"]
+    ctx.ob("R06.9", "returns-the-block", okr, fb.loc(0), "the assembled vector is what is returned")
+    # the case folding is ASCII-only upper-casing of the name, applied to the key alone (values and emitted names are untouched)
+    if up is not None:
+        cl = [f for p, f in prog.fns.items() if p.startswith("popen::os::format_env_block::to_uppercase::{closure")]
+        okf = False
+        if len(cl) == 1:
+            calls = [M.callee_str(t["f"]) for _, t in cl[0].calls()]
+            okf = any(n.endswith("to_ascii_uppercase") for n in calls)
+        ctx.ob("R06.9", "key-folding=ascii-uppercase", okf, up.loc(0), "names are compared after ASCII upper-casing")
+    # who calls it: only with the configured environment
+    cs = callers_of(prog, fb.path)
+    ctx.floor("R06.9", "callers of format_env_block", len(cs), 1)
